@@ -19,20 +19,20 @@ Definition kid_strs (ks : list (seg * dm)) : list bytes := map (fun k => seg_str
 
 (* at every node the unrestricted walk enters, the explored children have pairwise different segment
    strings (false only for selectors whose Interests() repeat a segment, or maps with repeated keys) *)
-Fixpoint walk_distinct (g : list (bytes * dm)) (f : nat) (n : dm) (s : sel) : bool :=
+Fixpoint walk_distinct (q : quirks) (g : list (bytes * dm)) (f : nat) (n : dm) (s : sel) : bool :=
   match f with
   | O => true
   | S f' =>
       if is_container n then
-        nodup_strs (kid_strs (children n s)) &&
-        forallb (fun k => match explore s n (fst k) with
+        nodup_strs (kid_strs (children q n s)) &&
+        forallb (fun k => match explore q s n (fst k) with
                           | XOk (Some s') =>
                               match snd k with
-                              | DLink c => match assoc c g with Some b => walk_distinct g f' b s' | None => true end
-                              | v => walk_distinct g f' v s'
+                              | DLink c => match assoc c g with Some b => walk_distinct q g f' b s' | None => true end
+                              | v => walk_distinct q g f' v s'
                               end
                           | _ => true
-                          end) (children n s)
+                          end) (children q n s)
       else true
   end.
 
@@ -46,37 +46,37 @@ Lemma seg_equals_SegS ps y : seg_equals ps (SegS y) = bytes_eqb (seg_string ps) 
 Proof. destruct ps; reflexivity. Qed.
 
 (* ---- paths of events *)
-Lemma walk_path_prefix g f : forall ls P n s,
-  Forall (fun e => exists q, ev_path e = P ++ q) (fst (walk g f ls P n s)).
+Lemma walk_path_prefix q g f : forall ls P n s,
+  Forall (fun e => exists sfx, ev_path e = P ++ sfx) (fst (walk q g f ls P n s)).
 Proof.
   induction f as [|f IH]; intros; [constructor|].
   rewrite walk_S. destruct (is_container n).
-  - pose proof (seqk_Forall (fun e => exists q, ev_path e = P ++ q)
-                  (explore_step g (walk g f) ls P n s) (children n s)) as H.
-    destruct (seqk (explore_step g (walk g f) ls P n s) (children n s)) as [e o]. cbn in *.
+  - pose proof (seqk_Forall (fun e => exists sfx, ev_path e = P ++ sfx)
+                  (explore_step q g (walk q g f) ls P n s) (children q n s)) as H.
+    destruct (seqk (explore_step q g (walk q g f) ls P n s) (children q n s)) as [e o]. cbn in *.
     constructor; [exists []; rewrite app_nil_r; apply visit_event_path|]. apply H. clear H. intros k.
-    unfold explore_step. destruct (explore s n (fst k)) as [[s'|]| |]; cbn; try constructor.
-    assert (Hlift : forall l, Forall (fun e => exists q, ev_path e = (P ++ [fst k]) ++ q) l ->
-                              Forall (fun e => exists q, ev_path e = P ++ q) l).
-    { intros l Hl. eapply Forall_impl; [|exact Hl]. intros a [q Hq]. exists ([fst k] ++ q).
+    unfold explore_step. destruct (explore q s n (fst k)) as [[s'|]| |]; cbn; try constructor.
+    assert (Hlift : forall l, Forall (fun e => exists sfx, ev_path e = (P ++ [fst k]) ++ sfx) l ->
+                              Forall (fun e => exists sfx, ev_path e = P ++ sfx) l).
+    { intros l Hl. eapply Forall_impl; [|exact Hl]. intros a [sfx Hq]. exists ([fst k] ++ sfx).
       rewrite app_assoc. exact Hq. }
     destruct (snd k); try (apply Hlift; apply IH).
     destruct (assoc c g) as [b|]; cbn.
     + specialize (IH (c :: ls) (P ++ [fst k]) b s').
-      destruct (walk g f (c :: ls) (P ++ [fst k]) b s') as [e' o']. cbn in *.
+      destruct (walk q g f (c :: ls) (P ++ [fst k]) b s') as [e' o']. cbn in *.
       constructor; [exists [fst k]; reflexivity|]. apply Hlift; exact IH.
     + constructor; [exists [fst k]; reflexivity|constructor].
   - cbn. constructor; [exists []; rewrite app_nil_r; apply visit_event_path|constructor].
 Qed.
 
-Lemma step_path_prefix g f ls P n s k :
-  Forall (fun e => exists q, ev_path e = (P ++ [fst k]) ++ q) (fst (explore_step g (walk g f) ls P n s k)).
+Lemma step_path_prefix q g f ls P n s k :
+  Forall (fun e => exists sfx, ev_path e = (P ++ [fst k]) ++ sfx) (fst (explore_step q g (walk q g f) ls P n s k)).
 Proof.
-  unfold explore_step. destruct (explore s n (fst k)) as [[s'|]| |]; cbn; try constructor.
+  unfold explore_step. destruct (explore q s n (fst k)) as [[s'|]| |]; cbn; try constructor.
   destruct (snd k); try apply walk_path_prefix.
   destruct (assoc c g) as [b|]; cbn.
-  - pose proof (walk_path_prefix g f (c :: ls) (P ++ [fst k]) b s') as H.
-    destruct (walk g f (c :: ls) (P ++ [fst k]) b s') as [e' o']. cbn in *.
+  - pose proof (walk_path_prefix q g f (c :: ls) (P ++ [fst k]) b s') as H.
+    destruct (walk q g f (c :: ls) (P ++ [fst k]) b s') as [e' o']. cbn in *.
     constructor; [exists []; rewrite app_nil_r; reflexivity|exact H].
   - constructor; [exists []; rewrite app_nil_r; reflexivity|constructor].
 Qed.
@@ -98,9 +98,9 @@ Qed.
 
 (* an event below a sibling whose segment differs from the start path's is neither at the start path nor
    a load on it *)
-Lemma off_path sp A x y rest e q :
+Lemma off_path sp A x y rest e sfx :
   sp = A ++ y :: rest -> bytes_eqb x y = false ->
-  path_strs (ev_path e) = (A ++ [x]) ++ q ->
+  path_strs (ev_path e) = (A ++ [x]) ++ sfx ->
   at_path (map SegS sp) e = false /\ on_path_load (map SegS sp) e = false.
 Proof.
   intros -> Hxy Hp. unfold at_path, on_path_load. rewrite path_strs_SegS, Hp.
@@ -136,6 +136,7 @@ Proof.
 Qed.
 
 Section Start.
+  Variable q : quirks.
   Variable g : list (bytes * dm).
   Variable sp : list bytes.
   Let SP := map SegS sp.
@@ -165,34 +166,34 @@ Section Start.
 
   Definition past_form (f : nat) : Prop :=
     forall seen past ls P n s, pastok past P ->
-      cwalk C g f (nst seen) past ls P n s = lift (walk g f ls P n s) (nst seen).
+      cwalk q C g f (nst seen) past ls P n s = lift (walk q g f ls P n s) (nst seen).
 
   Lemma step_past f (IH : past_form f) seen past ls P n s k : pastok past P ->
-    cexplore_step C g (cwalk C g f) ls P n s (nst seen) past k
-    = lift (explore_step g (walk g f) ls P n s k) (nst seen).
+    cexplore_step q C g (cwalk q C g f) ls P n s (nst seen) past k
+    = lift (explore_step q g (walk q g f) ls P n s k) (nst seen).
   Proof.
     intros Hp. unfold cexplore_step, explore_step.
-    destruct (explore s n (fst k)) as [[s'|]| |]; try reflexivity.
+    destruct (explore q s n (fst k)) as [[s'|]| |]; try reflexivity.
     assert (Hp' : pastok past (P ++ [fst k])).
     { destruct Hp as [->|H]; [left; reflexivity|right]. rewrite app_length. lia. }
     destruct (snd k); try (apply IH; exact Hp').
     cbn [c_once C start_ctl andb c_skip mem_bytes]. unfold check_link; cbn [w_budget nst].
     destruct (assoc c g) as [b|]; [|reflexivity].
     fold (nst seen). rewrite (IH seen past (c :: ls) (P ++ [fst k]) b s' Hp').
-    destruct (walk g f (c :: ls) (P ++ [fst k]) b s') as [e o]. reflexivity.
+    destruct (walk q g f (c :: ls) (P ++ [fst k]) b s') as [e o]. reflexivity.
   Qed.
 
   Lemma loop_past f (IH : past_form f) ls P n s : forall ks seen past reached, pastok past P \/ reached = true ->
-    cloop C (cexplore_step C g (cwalk C g f) ls P n s) P ks (nst seen) past reached
-    = lift (seqk (explore_step g (walk g f) ls P n s) ks) (nst seen).
+    cloop C (cexplore_step q C g (cwalk q C g f) ls P n s) P ks (nst seen) past reached
+    = lift (seqk (explore_step q g (walk q g f) ls P n s) ks) (nst seen).
   Proof.
     induction ks as [|k r IHr]; intros seen past reached Hp; [reflexivity|].
     cbn [cloop]. destruct (start_decide_past P (fst k) past reached Hp) as (p' & r' & -> & Hp').
     rewrite (step_past f IH seen p' ls P n s k Hp'). rewrite seqk_cons.
-    destruct (explore_step g (walk g f) ls P n s k) as [e o]. unfold lift at 1; cbn [fst snd].
+    destruct (explore_step q g (walk q g f) ls P n s k) as [e o]. unfold lift at 1; cbn [fst snd].
     destruct o; try reflexivity.
     rewrite (IHr seen p' r' (or_introl Hp')).
-    destruct (seqk (explore_step g (walk g f) ls P n s) r) as [e' o']. reflexivity.
+    destruct (seqk (explore_step q g (walk q g f) ls P n s) r) as [e' o']. reflexivity.
   Qed.
 
   Theorem past_closed_form : forall f, past_form f.
@@ -202,44 +203,44 @@ Section Start.
     rewrite (vis_cond_false past P Hp).
     destruct (is_container n); [|reflexivity].
     fold (nst seen). rewrite (loop_past f IH ls P n s _ seen past false (or_introl Hp)).
-    destruct (seqk (explore_step g (walk g f) ls P n s) (children n s)) as [e o]. reflexivity.
+    destruct (seqk (explore_step q g (walk q g f) ls P n s) (children q n s)) as [e o]. reflexivity.
   Qed.
 
   (* ---- the part before the start path is reached *)
   Definition start_form (f : nat) : Prop :=
     forall seen ls P n s t rest,
-      walk g f ls P n s = (t, OOk) -> walk_distinct g f n s = true ->
+      walk q g f ls P n s = (t, OOk) -> walk_distinct q g f n s = true ->
       sp = path_strs P ++ rest ->
       Exists (fun e => at_path SP e = true) t ->
-      cwalk C g f (nst seen) false ls P n s = (start_spec SP t, OOk, nst seen).
+      cwalk q C g f (nst seen) false ls P n s = (start_spec SP t, OOk, nst seen).
 
   (* the per-child condition of walk_distinct *)
   Definition kid_distinct (f : nat) (n : dm) (s : sel) (k : seg * dm) : bool :=
-    match explore s n (fst k) with
+    match explore q s n (fst k) with
     | XOk (Some s') =>
         match snd k with
-        | DLink c => match assoc c g with Some b => walk_distinct g f b s' | None => true end
-        | v => walk_distinct g f v s'
+        | DLink c => match assoc c g with Some b => walk_distinct q g f b s' | None => true end
+        | v => walk_distinct q g f v s'
         end
     | _ => true
     end.
 
   Lemma step_start f (IH : start_form f) seen ls P n s k t y rest :
-    explore_step g (walk g f) ls P n s k = (t, OOk) ->
+    explore_step q g (walk q g f) ls P n s k = (t, OOk) ->
     kid_distinct f n s k = true ->
     sp = path_strs P ++ y :: rest -> seg_string (fst k) = y ->
     Exists (fun e => at_path SP e = true) t ->
-    cexplore_step C g (cwalk C g f) ls P n s (nst seen) false k = (start_spec SP t, OOk, nst seen).
+    cexplore_step q C g (cwalk q C g f) ls P n s (nst seen) false k = (start_spec SP t, OOk, nst seen).
   Proof.
     intros Hk Hd Hsp Hy Hex. unfold explore_step in Hk. unfold cexplore_step. unfold kid_distinct in Hd.
-    destruct (explore s n (fst k)) as [[s'|]| |]; try discriminate.
+    destruct (explore q s n (fst k)) as [[s'|]| |]; try discriminate.
     2:{ inversion Hk; subst. inversion Hex. }
     assert (Hsp' : sp = path_strs (P ++ [fst k]) ++ rest).
     { rewrite path_strs_app. cbn. rewrite Hy, <- app_assoc. exact Hsp. }
     destruct (snd k) eqn:Ek; try (apply (IH seen ls (P ++ [fst k]) _ s' t rest Hk Hd Hsp' Hex)).
     cbn [c_once C start_ctl andb c_skip mem_bytes]. unfold check_link; cbn [w_budget nst].
     destruct (assoc c g) as [b|]; [|discriminate].
-    destruct (walk g f (c :: ls) (P ++ [fst k]) b s') as [e o] eqn:Ew.
+    destruct (walk q g f (c :: ls) (P ++ [fst k]) b s') as [e o] eqn:Ew.
     inversion Hk; subst. clear Hk.
     assert (Hex' : Exists (fun e => at_path SP e = true) e).
     { inversion Hex as [? ? H1|? ? H1]; subst; [discriminate H1|exact H1]. }
@@ -274,11 +275,11 @@ Section Start.
   Lemma loop_start f (IH : start_form f) (IHp : past_form f) seen ls P n s y rest :
     sp = path_strs P ++ y :: rest ->
     forall ks t,
-      seqk (explore_step g (walk g f) ls P n s) ks = (t, OOk) ->
+      seqk (explore_step q g (walk q g f) ls P n s) ks = (t, OOk) ->
       nodup_strs (kid_strs ks) = true ->
       forallb (kid_distinct f n s) ks = true ->
       Exists (fun e => at_path SP e = true) t ->
-      cloop C (cexplore_step C g (cwalk C g f) ls P n s) P ks (nst seen) false false
+      cloop C (cexplore_step q C g (cwalk q C g f) ls P n s) P ks (nst seen) false false
       = (start_spec SP t, OOk, nst seen).
   Proof.
     intros Hsp. induction ks as [|k r IHr]; intros t Hs Hnd Hkd Hex.
@@ -299,9 +300,9 @@ Section Start.
             cbn [kid_strs map mem_bytes] in Hnm. apply negb_true_iff in Hnm.
             apply orb_false_iff in Hnm. destruct Hnm as [Hne Hnm].
             apply Forall_app. split.
-            + pose proof (step_path_prefix g f ls P n s k') as Hpp. rewrite Hk' in Hpp. cbn [fst] in Hpp.
-              eapply Forall_impl; [|exact Hpp]. intros x [q Hq].
-              refine (proj1 (off_path sp (path_strs P) (seg_string (fst k')) y rest x (path_strs q) Hsp _ _)).
+            + pose proof (step_path_prefix q g f ls P n s k') as Hpp. rewrite Hk' in Hpp. cbn [fst] in Hpp.
+              eapply Forall_impl; [|exact Hpp]. intros x [sfx Hq].
+              refine (proj1 (off_path sp (path_strs P) (seg_string (fst k')) y rest x (path_strs sfx) Hsp _ _)).
               * rewrite <- Eq. destruct (bytes_eqb (seg_string (fst k')) (seg_string (fst k))) eqn:E; [|reflexivity].
                 apply beqb_eq in E. rewrite E, beqb_refl in Hne. discriminate.
               * rewrite Hq, !path_strs_app. reflexivity.
@@ -315,9 +316,9 @@ Section Start.
         rewrite Hr. unfold lift; cbn [fst snd]. rewrite start_spec_app by exact Hexe. reflexivity.
       + (* a sibling before the start path: skipped entirely *)
         assert (Hoff : Forall (fun a => at_path SP a = false /\ on_path_load SP a = false) e).
-        { pose proof (step_path_prefix g f ls P n s k) as Hpp. rewrite Hk in Hpp. cbn [fst] in Hpp.
-          eapply Forall_impl; [|exact Hpp]. intros x [q Hq].
-          apply (off_path sp (path_strs P) (seg_string (fst k)) y rest x (path_strs q) Hsp Eq).
+        { pose proof (step_path_prefix q g f ls P n s k) as Hpp. rewrite Hk in Hpp. cbn [fst] in Hpp.
+          eapply Forall_impl; [|exact Hpp]. intros x [sfx Hq].
+          apply (off_path sp (path_strs P) (seg_string (fst k)) y rest x (path_strs sfx) Hsp Eq).
           rewrite Hq, !path_strs_app. reflexivity. }
         rewrite start_spec_skip by exact Hoff.
         apply IHr; auto.
@@ -338,7 +339,7 @@ Section Start.
       rewrite walk_S in Hw.
       assert (Hhd : exists r, t = visit_event P n s ls :: r).
       { destruct (is_container n).
-        - destruct (seqk (explore_step g (walk g f) ls P n s) (children n s)) as [e o].
+        - destruct (seqk (explore_step q g (walk q g f) ls P n s) (children q n s)) as [e o].
           inversion Hw; eauto.
         - inversion Hw; eauto. }
       destruct Hhd as [r ->]. unfold start_spec. cbn [split_at].
@@ -358,11 +359,11 @@ Section Start.
         - unfold visit_event. destruct (match_sel s n); reflexivity. }
       cbn [walk_distinct] in Hd.
       destruct (is_container n).
-      + destruct (seqk (explore_step g (walk g f) ls P n s) (children n s)) as [e o] eqn:Es.
+      + destruct (seqk (explore_step q g (walk q g f) ls P n s) (children q n s)) as [e o] eqn:Es.
         inversion Hw; subst. clear Hw.
         apply andb_true_iff in Hd. destruct Hd as [Hnd Hkd].
         fold (nst seen).
-        rewrite (loop_start f IH (past_closed_form f) seen ls P n s y rest Hsp (children n s) e Es Hnd Hkd).
+        rewrite (loop_start f IH (past_closed_form f) seen ls P n s y rest Hsp (children q n s) e Es Hnd Hkd).
         * cbn [app]. change (visit_event P n s ls :: e) with ([visit_event P n s ls] ++ e).
           rewrite start_spec_skip; [reflexivity|]. constructor; [exact Hnv|constructor].
         * inversion Hex as [? ? H1|? ? H1]; subst; [|exact H1].
@@ -375,22 +376,22 @@ End Start.
 
 (* ------------------------------------------------------------------ whole runs *)
 
-Theorem start_run g sp f root s t :
-  walk_adv g f root s = (t, OOk) -> walk_distinct g f root s = true ->
+Theorem start_run q g sp f root s t :
+  walk_adv q g f root s = (t, OOk) -> walk_distinct q g f root s = true ->
   Exists (fun e => at_path (map SegS sp) e = true) t ->
-  cwalk_adv (start_ctl sp) g f None root s = (start_spec (map SegS sp) t, OOk).
+  cwalk_adv q (start_ctl sp) g f None root s = (start_spec (map SegS sp) t, OOk).
 Proof.
   intros H Hd Hex. unfold cwalk_adv. change {| w_budget := None; w_seen := [] |} with (nst []).
-  rewrite (start_closed_form g sp f [] [] [] root s t sp H Hd eq_refl Hex). reflexivity.
+  rewrite (start_closed_form q g sp f [] [] [] root s t sp H Hd eq_refl Hex). reflexivity.
 Qed.
 
 (* with every control off the controlled walk is the walk of Walk.v *)
-Theorem controls_off g f root s : cwalk_adv no_ctl g f None root s = walk_adv g f root s.
+Theorem controls_off q g f root s : cwalk_adv q no_ctl g f None root s = walk_adv q g f root s.
 Proof.
   unfold cwalk_adv, walk_adv. change {| w_budget := None; w_seen := [] |} with (nst []).
   change no_ctl with (start_ctl []).
-  rewrite (past_closed_form g [] f [] false [] [] root s); [|right; cbn; lia].
-  unfold lift. destruct (walk g f [] [] root s); reflexivity.
+  rewrite (past_closed_form q g [] f [] false [] [] root s); [|right; cbn; lia].
+  unfold lift. destruct (walk q g f [] [] root s); reflexivity.
 Qed.
 
 (* what start_spec means: the trace splits at the first visit of the start path; the visits of the restricted
